@@ -2,6 +2,7 @@ mod absval;
 mod calc;
 mod emit;
 mod registry;
+mod render;
 mod replay;
 
 use serde_json::json;
@@ -54,6 +55,15 @@ fn main() {
                 Some((e, t)) => println!("{}", json!({"type": key, "events": e, "tried": t, "file": path})),
                 None => {
                     eprintln!("unknown type key {key}");
+                    std::process::exit(2);
+                }
+            }
+        }
+        "render" => {
+            match render::render_file(args.get(2).expect("render <file>")) {
+                Ok(v) => println!("{v}"),
+                Err(e) => {
+                    eprintln!("tool error: {e}");
                     std::process::exit(2);
                 }
             }
